@@ -32,8 +32,8 @@ def load_known(pid):
 
 def repo_head():
     try:
-        h = subprocess.run(["git", "-C", core.REPO, "rev-parse", "--short", "HEAD"], capture_output=True, text=True).stdout.strip()
-        d = subprocess.run(["git", "-C", core.REPO, "status", "--porcelain", "--untracked-files=no"], capture_output=True, text=True).stdout.strip()
+        h = subprocess.run(["git", "-C", core.REPO, "rev-parse", "--short", "HEAD"], capture_output=True, text=True, timeout=60).stdout.strip()
+        d = subprocess.run(["git", "-C", core.REPO, "status", "--porcelain", "--untracked-files=no"], capture_output=True, text=True, timeout=60).stdout.strip()
         return h, bool(d)
     except Exception:
         return "?", False
@@ -73,6 +73,8 @@ def run_property(pid, tier):
     mod = module_for(pid)
     stages = mod.plan(tier)
     deadline = t0 + float(os.environ.get("SVMC_CAP_S", CAPS[tier]))
+    if "SVMC_STALL_S" not in os.environ:
+        core.STALL_S = 1200.0 if tier == "quick" else 3600.0
     only = os.environ.get("SVMC_STAGES")
     for st in stages:
         if only and not re.search(only, st.name):
@@ -193,7 +195,7 @@ def validate_evidence(path):
     if os.path.exists(schema) and os.path.exists(vt):
         code = ("import json,sys,jsonschema;"
                 "jsonschema.validate(json.load(open(sys.argv[1])),json.load(open(sys.argv[2])))")
-        p = subprocess.run([vt, "-c", code, path, schema], capture_output=True, text=True)
+        p = subprocess.run([vt, "-c", code, path, schema], capture_output=True, text=True, timeout=300)
         if p.returncode != 0:
             print(f"evidence file {path} does not validate:\n{p.stderr[-1500:]}", file=sys.stderr)
             raise core.HarnessError("evidence invalid")
